@@ -1106,7 +1106,10 @@ def _fill_sample_metadata(sample: dict, api_schema: api.API):
     snippet_metadata.client_method.client.short_name = (
         service.async_client_name if async_ else service.client_name
     )
-    snippet_metadata.client_method.client.full_name = f"{'.'.join(sample['module_namespace'])}.{sample['module_name']}.{snippet_metadata.client_method.client.short_name}"
+    snippet_metadata.client_method.client.full_name = ".".join(
+        tuple(sample["module_namespace"])
+        + (sample["module_name"], snippet_metadata.client_method.client.short_name)
+    )
 
     # Service
     snippet_metadata.client_method.method.service.short_name = service.name
@@ -1182,7 +1185,11 @@ def _get_sample_imports(sample: Dict, rpc: wrappers.Method) -> List[str]:
     """Returns sorted sample import statements."""
     module_namespace = ".".join(sample["module_namespace"])
     module_name = sample["module_name"]
-    module_import = f"from {module_namespace} import {module_name}"
+    module_import = (
+        f"from {module_namespace} import {module_name}"
+        if module_namespace
+        else f"import {module_name}"
+    )
 
     address = rpc.input.meta.address
     # This checks if the request message is part of the service proto package.
